@@ -148,6 +148,13 @@ def main():
              "function or flag combination, or an interplay between two functions or files that each look fine alone - anything within the "
              "property, but not the mainstream fast path that every user exercises")
         table = dict((k, g) for k in FOCUS)
+    if "--focus4" in sys.argv:
+        use_focus = True
+        g = ("something that several functions depend on and that leaves each of those functions reading correctly on its own: a constant, "
+             "a macro definition, an enum / flag value, a structure layout or static initialiser, a type width or signedness, an alignment, "
+             "a default chosen at initialisation time, or a small inline helper in a shared header - or a change whose two halves sit in "
+             "different functions / files and are each harmless alone")
+        table = dict((k, g) for k in FOCUS)
     props = {json.loads(l)["id"]: json.loads(l) for l in open(os.path.join(V, "properties.jsonl"))}
     prev = {}
     for m in sorted(glob.glob(os.path.join(V, "seeded", "C*-*", "meta.json"))):
